@@ -601,4 +601,110 @@ def ecRead [Add K] [Sub K] [Mul K] [Div K] [Neg K] [One K] [OfNat K 0] [IntCast 
       | some ⟨[6, 6], d⟩ => d.toFlt.bind (cijSet eps atol rtol)
       | _ => none
 
+/-! ### `ElasticConstants.normalized_as` and the crystal-system constructors it calls -/
+
+section forms
+variable [Add K] [Sub K] [Mul K] [Div K] [Neg K] [OfNat K 0] [IntCast K]
+
+/-- `ElasticConstants.cubic(C11, C12, C44)`: the 6×6 array, row-major. -/
+def cubicForm (c11 c12 c44 : K) : List K :=
+  [c11, c12, c12, 0, 0, 0,
+   c12, c11, c12, 0, 0, 0,
+   c12, c12, c11, 0, 0, 0,
+   0, 0, 0, c44, 0, 0,
+   0, 0, 0, 0, c44, 0,
+   0, 0, 0, 0, 0, c44]
+
+/-- `ElasticConstants.isotropic(mu=…, K=…)`: `C44 = mu`, `C12 = K - 2 C44 / 3`, `C11 = C12 + 2 C44`. -/
+def isoForm (mu k : K) : List K :=
+  let c12 := k - ((2 : Int) : K) * mu / ((3 : Int) : K)
+  cubicForm (c12 + ((2 : Int) : K) * mu) c12 mu
+
+/-- `ElasticConstants.hexagonal(C11, C33, C12, C13, C44)`: `C66 = (C11 - C12) / 2`. -/
+def hexForm (c11 c33 c12 c13 c44 : K) : List K :=
+  [c11, c12, c13, 0, 0, 0,
+   c12, c11, c13, 0, 0, 0,
+   c13, c13, c33, 0, 0, 0,
+   0, 0, 0, c44, 0, 0,
+   0, 0, 0, 0, c44, 0,
+   0, 0, 0, 0, 0, (c11 - c12) / ((2 : Int) : K)]
+
+/-- `ElasticConstants.tetragonal(C11, C33, C12, C13, C44, C66, C16)` (seven constants, `C26 = -C16`). -/
+def tetraForm (c11 c33 c12 c13 c44 c66 c16 : K) : List K :=
+  [c11, c12, c13, 0, 0, c16,
+   c12, c11, c13, 0, 0, -c16,
+   c13, c13, c33, 0, 0, 0,
+   0, 0, 0, c44, 0, 0,
+   0, 0, 0, 0, c44, 0,
+   c16, -c16, 0, 0, 0, c66]
+
+/-- `ElasticConstants.rhombohedral(C11, C33, C12, C13, C14, C15, C44)` (seven constants,
+    `C66 = (C11 - C12) / 2`). -/
+def rhomboForm (c11 c33 c12 c13 c14 c15 c44 : K) : List K :=
+  [c11, c12, c13, c14, c15, 0,
+   c12, c11, c13, -c14, -c15, 0,
+   c13, c13, c33, 0, 0, 0,
+   c14, -c14, 0, c44, 0, -c15,
+   c15, -c15, 0, 0, c44, c14,
+   0, 0, 0, -c15, c14, (c11 - c12) / ((2 : Int) : K)]
+
+/-- `ElasticConstants.orthorhombic(…)` (nine constants). -/
+def orthoForm (c11 c22 c33 c12 c13 c23 c44 c55 c66 : K) : List K :=
+  [c11, c12, c13, 0, 0, 0,
+   c12, c22, c23, 0, 0, 0,
+   c13, c23, c33, 0, 0, 0,
+   0, 0, 0, c44, 0, 0,
+   0, 0, 0, 0, c55, 0,
+   0, 0, 0, 0, 0, c66]
+
+set_option linter.unusedVariables false in
+/-- the array handed to the `Cij` setter by `normalized_as(cs)`: the named constants are averaged from the
+    36 entries `aij` of `self.Cij` and passed to the crystal-system constructor (`ElasticConstants(**c_dict)`
+    dispatches on the number of keywords and on `C14`).  `muK` are `self.shear()`, `self.bulk()` (Hill
+    estimates: they need the inverse 6×6 array, property C11), `none` when they raise.  An unknown crystal
+    system (`'monoclinic'` included) is a `ValueError`. -/
+def normForm (muK : Option (K × K)) (cs : String) (c : List K) : Option (List K) :=
+  match c with
+  | a00 :: a01 :: a02 :: a03 :: a04 :: a05
+    :: a10 :: a11 :: a12 :: a13 :: a14 :: a15
+    :: a20 :: a21 :: a22 :: a23 :: a24 :: a25
+    :: a30 :: a31 :: a32 :: a33 :: a34 :: a35
+    :: a40 :: a41 :: a42 :: a43 :: a44 :: a45
+    :: a50 :: a51 :: a52 :: a53 :: a54 :: a55
+    :: [] =>
+    let two : K := ((2 : Int) : K)
+    let three : K := ((3 : Int) : K)
+    if cs = "triclinic" then some c
+    else if cs = "isotropic" then muK.map (fun mk => isoForm mk.1 mk.2)
+    else if cs = "cubic" then
+      some (cubicForm ((a00 + a11 + a22) / three) ((a01 + a02 + a12) / three) ((a33 + a44 + a55) / three))
+    else if cs = "hexagonal" then
+      some (hexForm ((a00 + a11) / two) a22 ((a01 + (a00 - two * a55)) / two) ((a02 + a12) / two)
+        ((a33 + a44) / two))
+    else if cs = "tetragonal" then
+      some (tetraForm ((a00 + a11) / two) a22 a01 ((a02 + a12) / two) ((a33 + a44) / two) a55
+        ((a05 - a15) / two))
+    else if cs = "rhombohedral" then
+      some (rhomboForm ((a00 + a11) / two) a22 ((a01 + (a00 - two * a55)) / two) ((a02 + a12) / two)
+        ((a03 - a13) / two) ((a04 - a14 - a35) / three) ((a33 + a44) / two))
+    else if cs = "orthorhombic" then
+      some (orthoForm a00 a11 a22 a01 a02 a12 a33 a44 a55)
+    else none
+  | _ => none
+
+end forms
+
+/-- `self.normalized_as(cs).Cij`: the form above through the `Cij` setter of the new object. -/
+def normalizedAs [Add K] [Sub K] [Mul K] [Div K] [Neg K] [OfNat K 0] [IntCast K] [LT K] [DecidableLT K]
+    (eps atol rtol : K) (muK : Option (K × K)) (cs : String) (c : List K) : Option (List K) :=
+  (normForm muK cs c).bind (cijSet eps atol rtol)
+
+/-- `ElasticConstants.model(unit=u, crystal_system=cs)` with `normalized_as` inside the model. -/
+def ecModelCS [Add K] [Sub K] [Mul K] [Div K] [Neg K] [One K] [OfNat K 0] [IntCast K] [LT K] [DecidableLT K]
+    (fac : String → K) (u : Option String) (eps atol rtol : K) (muK : Option (K × K)) (cs : String)
+    (c : List K) : Option (DM K) :=
+  match normalizedAs eps atol rtol muK cs c with
+  | none => none
+  | some nc => ecModel fac u (fun _ => nc) c
+
 end Atomman.C10
